@@ -84,6 +84,7 @@ func allowedCallee(fn *types.Func) bool {
 type moCtx struct {
 	e      *Env
 	info   *types.Info
+	fd     *ast.FuncDecl
 	key    types.Object
 	val    types.Object
 	ranged string
@@ -118,6 +119,9 @@ func (m *moCtx) pureExpr(x ast.Expr) bool {
 				return true
 			}
 		}
+		if m.pureLocalClosure(call) {
+			return true
+		}
 		if !allowedCallee(calleeFunc(m.info, call)) {
 			ok = false
 			m.fail("call to %s inside the loop body is not known to be order-insensitive", types.ExprString(call.Fun))
@@ -125,6 +129,72 @@ func (m *moCtx) pureExpr(x ast.Expr) bool {
 		return true
 	})
 	return ok
+}
+
+// pureLocalClosure: the call is to a local variable of the enclosing function that is defined
+// once, by a function literal whose body is a single return of call-free reads (a named
+// predicate): calling it in the loop is as order-insensitive as writing the expression inline.
+func (m *moCtx) pureLocalClosure(call *ast.CallExpr) bool {
+	id, ok := call.Fun.(*ast.Ident)
+	if !ok || m.fd == nil || m.fd.Body == nil {
+		return false
+	}
+	v, ok := m.info.Uses[id].(*types.Var)
+	if !ok {
+		return false
+	}
+	var lit *ast.FuncLit
+	writes := 0
+	ast.Inspect(m.fd.Body, func(n ast.Node) bool {
+		switch x := n.(type) {
+		case *ast.AssignStmt:
+			for i, l := range x.Lhs {
+				lid, ok := l.(*ast.Ident)
+				if !ok || (m.info.Defs[lid] != types.Object(v) && m.info.Uses[lid] != types.Object(v)) {
+					continue
+				}
+				writes++
+				if len(x.Lhs) == len(x.Rhs) {
+					lit, _ = x.Rhs[i].(*ast.FuncLit)
+				}
+			}
+		case *ast.UnaryExpr:
+			if aid, ok := x.X.(*ast.Ident); ok && x.Op == token.AND && m.info.Uses[aid] == types.Object(v) {
+				writes += 2
+			}
+		}
+		return true
+	})
+	if writes != 1 || lit == nil || len(lit.Body.List) != 1 {
+		return false
+	}
+	ret, ok := lit.Body.List[0].(*ast.ReturnStmt)
+	if !ok {
+		return false
+	}
+	pure := true
+	for _, r := range ret.Results {
+		ast.Inspect(r, func(n ast.Node) bool {
+			switch c := n.(type) {
+			case *ast.CallExpr:
+				if tv, found := m.info.Types[c.Fun]; found && tv.IsType() {
+					return true
+				}
+				if bid, isID := c.Fun.(*ast.Ident); isID {
+					if _, isB := m.info.Uses[bid].(*types.Builtin); isB && (bid.Name == "len" || bid.Name == "cap") {
+						return true
+					}
+				}
+				if !allowedCallee(calleeFunc(m.info, c)) {
+					pure = false
+				}
+			case *ast.FuncLit:
+				pure = false
+			}
+			return true
+		})
+	}
+	return pure
 }
 
 func (m *moCtx) mentions(x ast.Node, obj types.Object) bool {
@@ -342,7 +412,7 @@ func (e *Env) RMapOrder(filter func(mapRange) bool) {
 		}
 		n++
 		info := mr.pkg.TypesInfo
-		m := &moCtx{e: e, info: info, slices: map[types.Object]bool{}, cnts: map[types.Object]bool{}}
+		m := &moCtx{e: e, info: info, fd: mr.fd, slices: map[types.Object]bool{}, cnts: map[types.Object]bool{}}
 		if id, ok := mr.rs.Key.(*ast.Ident); ok && id.Name != "_" {
 			m.key = info.Defs[id]
 		}
@@ -440,8 +510,19 @@ func (m *moCtx) comparatorTotal(fd *ast.FuncDecl, call *ast.CallExpr, sl types.O
 			if len(qs) != 2 || len(d.Body.List) == 0 {
 				return "comparator function shape"
 			}
-			last, ok := d.Body.List[len(d.Body.List)-1].(*ast.ReturnStmt)
-			if !ok || len(last.Results) != 1 {
+			// the return that decides when no earlier test applies: the textually last one (the tail
+			// of the body or the default arm of a final switch)
+			var last *ast.ReturnStmt
+			ast.Inspect(d.Body, func(n ast.Node) bool {
+				switch x := n.(type) {
+				case *ast.FuncLit:
+					return false
+				case *ast.ReturnStmt:
+					last = x
+				}
+				return true
+			})
+			if last == nil || len(last.Results) != 1 {
 				return "comparator function does not end in a return"
 			}
 			isP := func(o types.Object) func(ast.Expr) bool {
